@@ -225,6 +225,9 @@ def kept_set_runs(chk, sources):
             why = None
             if any(c < 0 or c >= n for cs in ch for c in cs):
                 why = "an object refers to an object that is not in the collector's snapshot of the heap"
+            elif any(marked[i] and not marked[c] for i in range(n) for c in ch[i]):
+                bad = [(i, c) for i in range(n) for c in ch[i] if marked[i] and not marked[c]][0]
+                why = "marking is not closed: object %d was reached from the roots but %d, which it refers to, was not" % bad
             elif mo == "none":
                 why = "the model's kept-set iteration did not reach a fixed point within n+1 rounds"
             else:
